@@ -176,7 +176,28 @@ def check(run, model, tier):
                 s_ = const_str(v) if const_str(v) is not None else (const_str(v.func.value) if isinstance(v, ast.Call) and isinstance(v.func, ast.Attribute) and v.func.attr == 'format' else None)
                 if s_ is None:
                     raise AnalysisError('to_code: a fragment is not a string literal: %s' % norm(n))
-                lits.append(s_)
+                # positional format arguments that are locals bound only to string literals (keyword = "if" / "elif") are part of the fragment text
+                variants = [s_]
+                if isinstance(v, ast.Call) and '{}' in s_:
+                    tdefs = local_defs(tc.node)
+                    for a in v.args:
+                        vals = None
+                        if isinstance(a, ast.Name):
+                            ds = tdefs.get(a.id, [])
+                            if ds and all(not isinstance(d, tuple) and const_str(d) is not None for d in ds):
+                                vals = sorted({const_str(d) for d in ds})
+                        elif const_str(a) is not None:
+                            vals = [const_str(a)]
+                        nxt = []
+                        for s2 in variants:
+                            if vals is None:
+                                # keep the hole, but past this position
+                                nxt.append(s2.replace('{}', '\0', 1))
+                            else:
+                                nxt.extend(s2.replace('{}', x, 1) for x in vals)
+                        variants = nxt
+                    variants = [x.replace('\0', '{}') for x in variants]
+                lits.extend(variants)
     run.floor('to_code: emitted fragments', len(lits), 10)
     classes = {}
     for s_ in set(lits):
